@@ -52,6 +52,7 @@ package message
 //@ func (*Message).SetAddrs
 //@   property C10
 //@   requires m != nil
+//@   modifies m.Addrs
 //@   ensures len(m.Addrs) == len(addrs)
 //@   loop 1: invariant len(m.Addrs) == len(addrs) && rangeindex < len(addrs)
 
